@@ -364,16 +364,19 @@ def E2() -> bool:
 def _e2_shards(tier):
     from props import c05
 
-    base = {"workers": 2, "P": 1, "preserve": 1} if tier == "quick" else {"workers": 2, "P": 2, "preserve": 1}
-    return [dict(base, prefix=p) for p in enumerate_prefixes(body_E2, "X", {}, base, 4)]
+    cfgs = [{"workers": 2, "P": 1, "preserve": 1}] if tier == "quick" else [{"workers": 2, "P": 1, "preserve": 1}, {"workers": 2, "P": 2, "preserve": 0}]
+    out = []
+    for base in cfgs:
+        out += [dict(base, prefix=p) for p in enumerate_prefixes(body_E2, "X", {}, base, 4 if base["preserve"] else 3)]
+    return out
 
 
 def _e1_shards(tier):
-    N, D, F = (4, 3, 2) if tier == "quick" else (5, 3, 3)
+    N, D, F = (4, 3, 2) if tier == "quick" else (5, 3, 2)
     profiles = [{}, {"open": 1}, {"open": 2}, {"open": 3}, {"open": 4}, {"open": 5}, {"msg": 4}, {"fin": 1}, {"exc": 2}, {"flaky_first": 0}]
     out = []
     for p in profiles:
-        s = dict(p, N=N if (not p or tier != "quick") else N - 1, D=D, F=F)
+        s = dict(p, N=N if not p else N - 1, D=D, F=F)
         for pre in enumerate_prefixes(body_E1, "X", {}, s, 3 if (not p or tier != "quick") else 1):
             out.append(dict(s, prefix=pre))
     return out
@@ -397,7 +400,7 @@ OBLIGATIONS = [
         shards=_e1_shards,
         twin=[{"N": 4, "D": 3, "F": 2, "twin_label": "end-of-nested-action-failed"}],
         timeout={"quick": 100, "thorough": 900},
-        bounds={"quick": "op sequences <= 4 ops (baseline profile; <= 3 ops for the other profiles), depth <= 3, <= 2 failing calls of the other destination at solver-chosen points (incl. on failure reports), 10 style profiles, failing destination registered before/after the healthy one", "thorough": "<= 5 ops, <= 3 failing calls"},
+        bounds={"quick": "op sequences <= 4 ops (baseline profile; <= 3 ops for the other profiles), depth <= 3, <= 2 failing calls of the other destination at solver-chosen points (incl. on failure reports), 10 style profiles, failing destination registered before/after the healthy one", "thorough": "<= 5 ops (baseline profile; <= 4 ops for the others), <= 2 failing calls"},
     ),
     Ob(
         "E2",
@@ -409,7 +412,7 @@ OBLIGATIONS = [
         shards=_e2_shards,
         twin=[{"workers": 2, "P": 1, "preserve": 1, "twin_label": "interleaved"}],
         timeout={"quick": 100, "thorough": 1500},
-        bounds={"quick": "3 worker programs each for 2 threads, plain or preserve_context, <= 1 preemption at call granularity in eliot/_action.py", "thorough": "<= 2 preemptions"},
+        bounds={"quick": "3 worker programs each for 2 threads, plain or preserve_context, <= 1 preemption at call granularity in eliot/_action.py", "thorough": "additionally plain threads with <= 2 preemptions"},
     ),
     Ob("L7", L7, body_L7, "S", desc="TaskLevel order = tree pre-order", functions=["TaskLevel.__lt__", "__le__", "__gt__", "__ge__", "__eq__", "__hash__", "next_sibling", "child", "parent"], bounds={"quick": "levels of depth <= 4 (+2), any positions j<k, m>=1"}, timeout={"quick": 120, "thorough": 300}),
 ]
